@@ -8,6 +8,8 @@ EXTENDS Lifecycle
 
 BoundShapes == {Flat3, Nested, Nested2}
 SmallShapes == {Flat3, Nested}
+FlatOnly    == {Flat3}
+NestedOnly  == {Nested}
 
 GenShape(r, p, c) ==
     [name |-> "gen", cycles |-> 2,
